@@ -375,7 +375,7 @@ theorem twKeep_none_iff (n : Nat) (s : Bytes) : StrF.twKeep n s = none ↔ wordC
     · simp
     · simp only [Option.map_eq_none_iff, ih]; omega
 
-theorem truncatewords_fits (s : Bytes) (n : Int) (el : Bytes) (h : wordCount s ≤ twLimit n) :
+theorem truncatewords_fits_lemma (s : Bytes) (n : Int) (el : Bytes) (h : wordCount s ≤ twLimit n) :
     StrF.truncatewords s n el = s := by
   have := (twKeep_none_iff (twLimit n) s).mpr h
   unfold twLimit at this
